@@ -4,6 +4,7 @@ import (
 	"fmt"
 	"go/constant"
 	"go/token"
+	"regexp"
 	"sort"
 	"strings"
 
@@ -381,11 +382,17 @@ func runC14Delim(c *Ctx) {
 					continue
 				}
 				own := ""
-				for _, a := range t.Order { // the first test of the value's first character decides
+				for _, a := range t.Order { // the first test of the value's first character decides (either spelling)
 					if strings.HasPrefix(a, "eq(") && strings.HasSuffix(a, ",val0[0])") {
 						var n int
 						if _, err := fmt.Sscanf(a, "eq(%d,", &n); err == nil && t.PC[a] == 1 {
 							own = string(rune(n))
+						}
+						break
+					}
+					if m := regexp.MustCompile(`^strings\.HasPrefix\(val0, "(.)"\)$`).FindStringSubmatch(a); m != nil {
+						if t.PC[a] == 1 {
+							own = m[1]
 						}
 						break
 					}
@@ -465,6 +472,21 @@ func runC14Delim(c *Ctx) {
 				for _, e := range ph.Edges {
 					if k, ok := constInt(e); ok && ph.Type().String() == "byte" || ok && ph.Type().String() == "uint8" {
 						defaults[string(rune(k))] = true
+					}
+					// a byte of a named string constant: validNamesSep[0]
+					var bx, bi ssa.Value
+					switch lk := e.(type) {
+					case *ssa.Lookup:
+						bx, bi = lk.X, lk.Index
+					case *ssa.Index:
+						bx, bi = lk.X, lk.Index
+					}
+					if bx != nil {
+						if cs, ok := constString(bx); ok {
+							if i, ok := constInt(bi); ok && int(i) < len(cs) {
+								defaults[string(cs[i])] = true
+							}
+						}
 					}
 				}
 			}
